@@ -13,8 +13,10 @@ LEVEL_TEXT = ("Comparison: TLC checks reflexivity, antisymmetry, transitivity, N
               "row in a forked child with a stack limit and watchdog) and TLC checks the recorded tables against the laws and, where "
               "the order is stated, against the reference (CmpLaws.tla).  Dup/independence: TLC explores SmallObj.tla (objpair, tok, "
               "url, regexp lifecycles with a copy slot) exhaustively and every transition is replayed on the real objects with "
-              "read-back of both slots after every step and per-script heap balance; the str/mbuff/container modules carry the same "
-              "A/B-slot Dup actions and are replayed by C01/C07/C02-C04, re-run here in their smallest scope.")
+              "read-back of both slots after every step and per-script heap balance; the container modules (ListSeq, MapDict, VecBag) carry "
+              "the same A/B-slot Dup actions and their smallest scopes are replayed here too (dup at every reachable state incl. empty "
+              "containers and NULL placeholders, then either side mutated, emptied or deleted); StrObj and MBuffObj carry them as "
+              "well and are replayed by the C01/C07 checks.")
 LEVEL_NOTE = ("Laws are established on a bounded universe, not for all objects.  For the container classes the property states only "
               "the order laws, so no particular order is demanded of them.  Trusted: TLC, harness projections, ASan.")
 TECHNIQUE = "TLA+ reference order + TLC law checking on recorded comp tables; TLC transition cover of object lifecycles replayed on the implementation"
